@@ -590,9 +590,14 @@ func TestC20(t *testing.T) {
 		case "iparray":
 			c.N = rapid.IntRange(0, 80).Draw(t, "n")
 			c.IPs = []string{c20GenIP6(t), c20GenIP6(t)}
-			if rapid.IntRange(0, 3).Draw(t, "short") == 0 { // many short addresses: far more than 49 of them fit a line
+			switch rapid.IntRange(0, 5).Draw(t, "short") {
+			case 0: // many short addresses: far more than 49 of them fit a line
 				c.N = rapid.IntRange(40, 260).Draw(t, "nShort")
 				c.IPs = []string{"10.0.0.1", "::1", "10.1.2.3"}
+			case 1: // IPv4 addresses of full width (15 and 14 characters): the line fills up in steps of 17 / 16 bytes, every alignment of the last element against the end of the buffer occurs
+				c.N = rapid.IntRange(100, 200).Draw(t, "nWide")
+				c.IPs = [][]string{{"192.168.100.200"}, {"192.168.100.20"}, {"192.168.100.200", "192.168.100.20"}, {"192.168.100.200", "10.0.0.1"}}[rapid.IntRange(0, 3).Draw(t, "wide")]
+				c.Prefix = rapid.IntRange(0, 40).Draw(t, "widePrefix")
 			}
 			if rapid.IntRange(0, 3).Draw(t, "withNil") == 0 { // nil entries cost two bytes each: long runs of them reach the end of the buffer too
 				c.N = rapid.IntRange(0, 1200).Draw(t, "nNil")
